@@ -38,6 +38,13 @@ def scenarios(c):
             add(proto=proto, scred=sp + "_d2", ctrust="trust_root", ccred="cli_" + d, strust="trust_root")
         add(proto=proto, scred=sp + "_d2", ctrust="trust_root", ccred="-", strust="trust_root")          # no client certificate
         add(proto=proto, scred=sp + "_d2", ctrust="trust_root", ccred="cli_d2", strust="trust_evil")      # server trusts another root
+        # trust bundles of several roots: the real root behind unrelated ones completes; a bundle too large for a connection (unrelated roots only) never makes
+        # an endpoint run without anchors -- neither the client facing an untrusted server nor the server facing a client with no / an untrusted certificate
+        add(proto=proto, scred=sp + "_d2", ctrust="trust_multi", ccred="cli_d2", strust="trust_multi")
+        add(proto=proto, scred=sp + "_untrusted", ctrust="trust_big")
+        add(proto=proto, scred=sp + "_d2", ctrust="trust_big")
+        add(proto=proto, scred=sp + "_d2", ctrust="trust_root", ccred="cli_untrusted", strust="trust_big")
+        add(proto=proto, scred=sp + "_d2", ctrust="trust_root", ccred="-", strust="trust_big")
         if not c.quick:
             for depth in (1, 3):
                 add(proto=proto, scred="%s_d%d" % (sp, depth), ctrust="trust_evil")
